@@ -14,6 +14,12 @@ import Mtv.Session.Start
   client that runs the key exchange for both ways of saying "nothing stored". `<store>+<warnings>`: what the
   application does with the client's `Warnings` channel (nil | buffered | unread | drained): the client machine has
   no such channel — a key exchange with a conformant server sends nothing on it —, the suffix is only checked.
+    c06.hist <tag> <history> <store> <the 18 tokens>
+  the exchange as step `x` of a history of ONE client object (`dial,disc,fail1..3` before it, `reconnect,disc,create`
+  after it; see `hsPlan` in x_hsserver.go). The exchange itself is answered like a `c06.hs`: the model's client
+  is a function of its configuration and the replies - nothing outlives a `CreateConnection` -, which is the
+  statement the history operations test on the real client. The steps around it are printed with the outcome each
+  has on its own (`pre=… post=…`).
   <time>: a number (the `server_time` announced), or `now+K` / `now-K`: a server whose clock is K seconds ahead of /
   behind the machine's the operation runs on. The client machine does not look at `server_time` (the model has no
   msg_ids), so a stand-in date ± K is announced; what the server thinks of the first encrypted request's msg_id is
@@ -45,23 +51,118 @@ def storeTok? (t : String) : Option String :=
   | [st, w] => if w ∈ ["nil", "buffered", "unread", "drained"] then some st else none
   | _ => none
 
-def handleHs : List String → String
+/-- configuration of the client and secrets of the server of a `c06.hs` line -/
+def parseHs : List String → Option (Cfg × Secrets)
   | ["c06.hs", _tag, nonce, nn, b, _ps, pad, n, e, d, sn, p, q, g, a, dhp, t, spad, mn, xfp] =>
     match parseBytes? nonce, parseBytes? nn, parseBytes? b, parseBytes? pad, hexNat? n, e.toNat?, hexNat? d with
     | some nonce, some nn, some b, some pad, some n, some e, some d =>
       match hexNat? sn, p.toNat?, q.toNat?, g.toNat?, hexNat? a, hexNat? dhp, timeTok? t, parseBytes? spad, fpsAround? xfp with
       | some sn, some p, some q, some g, some a, some dhp, some t, some spad, some xfp =>
-        if nonce.length ≠ 16 ∨ nn.length ≠ 32 ∨ b.length ≠ 256 ∨ pad.length ≠ 16 ∨ spad.length ≠ 16 then "bad-op" else
+        if nonce.length ≠ 16 ∨ nn.length ≠ 32 ∨ b.length ≠ 256 ∨ pad.length ≠ 16 ∨ spad.length ≠ 16 then none else
         let c : Cfg := { R := Mtv.Gen.registry, P := prims (some (p, q)), key := ⟨n, e⟩, d := ⟨nonce, nn, b, pad⟩ }
         let s : Secrets := { d := d, serverNonce := sn, p := p, q := q, g := g, a := a, dhPrime := dhp, time := t,
                              pad := spad, minimal := mn == "1", extraFps := xfp.1, laterFps := xfp.2 }
-        let x := exchange c s
-        let srv := match x.server with
-          | some r => s!"srv=done skey={showBytes r.authKey} ssalt={toSigned 64 r.salt} shash={toHexD r.hash}"
-          | none => "srv=refused skey=- ssalt=0 shash=-"
-        resultLine x.client x.actions ++ " " ++ srv
-      | _, _, _, _, _, _, _, _, _ => "bad-op"
-    | _, _, _, _, _, _, _ => "bad-op"
+        some (c, s)
+      | _, _, _, _, _, _, _, _, _ => none
+    | _, _, _, _, _, _, _ => none
+  | _ => none
+
+def handleHs (ts : List String) : String :=
+  match parseHs ts with
+  | some (c, s) =>
+    let x := exchange c s
+    let srv := match x.server with
+      | some r => s!"srv=done skey={showBytes r.authKey} ssalt={toSigned 64 r.salt} shash={toHexD r.hash}"
+      | none => "srv=refused skey=- ssalt=0 shash=-"
+    resultLine x.client x.actions ++ " " ++ srv
+  | none => "bad-op"
+
+/-! ### `c06.hist`: the exchange as one step of what happens on a client object -/
+
+/-- one bit of the byte at `off` inverted -/
+def flipAt (off : Nat) (b : Bytes) : Bytes :=
+  b.take off ++ (match b.drop off with | x :: r => (x ^^^ 1) :: r | [] => [])
+
+/-- How the client machine ends against the server that misbehaves ONCE: everything as `exchange`, but the reply
+of step `k` (1 `resPQ`, 2 `server_DH_params_ok`, 3 `dh_gen_ok`) leaves with one bit wrong - in `nonce`,
+`server_nonce`, `new_nonce_hash1` (bytes 4.., 20.., 36.. of the body; `hsFaulty` on the Go side). -/
+def faultyOutcome (c : Cfg) (s : Secrets) (k : Nat) : String :=
+  let f := fun (stage : Nat) (r : Bytes) => if stage = k then flipAt (4 + 16 * (stage - 1)) r else r
+  let (st0, a0) := hsStart c
+  match a0 with
+  | [.sendPlain req1] =>
+    match srvResPQ c.R c.P c.key s req1 with
+    | none => "refused"
+    | some (nonce, r1) =>
+      let (st1, a1) := hsStep c st0 (f 1 r1)
+      match a1 with
+      | [.sendPlain req2] =>
+        match srvDH c.R c.P c.key s nonce req2 with
+        | none => "refused"
+        | some (nn, r2) =>
+          let (st2, a2) := hsStep c st1 (f 2 r2)
+          match a2 with
+          | [.sendPlain req3] =>
+            match srvGen c.R c.P s nonce nn req3 with
+            | none => "refused"
+            | some (_, r3) => showOutcome (hsStep c st2 (f 3 r3)).1.result
+          | _ => showOutcome st2.result
+      | _ => showOutcome st1.result
+  | _ => showOutcome st0.result
+
+/-- the steps before `x`: `dial` only while the server has not been up (no `failK` earlier), not `disc` first -/
+def preOk : List String → Bool → Bool → Bool
+  | [], _, _ => true
+  | st :: r, first, up =>
+    if st = "dial" then !up && preOk r false up
+    else if st = "disc" then !first && preOk r false up
+    else if st ∈ ["fail1", "fail2", "fail3"] then preOk r false true
+    else false
+
+/-- the steps after `x`: `create` only directly after `disc`, no `disc` after `disc`, `reconnect` not after
+`disc`, the last step leaves the client connected -/
+def postOk : List String → String → Bool
+  | [], prev => prev ≠ "disc"
+  | st :: r, prev =>
+    if st = "reconnect" ∨ st = "disc" then prev ≠ "disc" && postOk r st
+    else if st = "create" then prev = "disc" && postOk r st
+    else false
+
+/-- `a,b,x,c` ↦ `([a, b], [c])` when it is a history by the rules above (`hsHistoryOk`) -/
+def history? (h : String) : Option (List String × List String) :=
+  let ts := h.splitOn ","
+  let pre := ts.takeWhile (· ≠ "x")
+  match ts.dropWhile (· ≠ "x") with
+  | [] => none
+  | _ :: post =>
+    if pre.length ≤ 6 ∧ post.length ≤ 4 ∧ preOk pre true false ∧ postOk post "" then some (pre, post) else none
+
+/-- How a step before `x` ends on its own. `dial`: nothing listens, the connect error; `disc`: `Disconnect`
+returns nil; `failK`: the client machine against the server misbehaving at step K. (The model's client has no
+state that outlives a `CreateConnection`: what these steps leave behind is exactly what must not matter.) -/
+def preOutcome (c : Cfg) (s : Secrets) : String → String
+  | "dial" => "err:connect"
+  | "fail1" => faultyOutcome c s 1
+  | "fail2" => faultyOutcome c s 2
+  | "fail3" => faultyOutcome c s 3
+  | _ => "ok"
+
+def showSteps (xs : List String) : String := if xs.isEmpty then "-" else ",".intercalate xs
+
+def handleHist : List String → String
+  | "c06.hist" :: _tag :: hist :: store :: rest =>
+    match history? hist, (storeTok? store).bind Mtv.Session.loadedOfMode?, parseHs ("c06.hs" :: "x" :: rest) with
+    | some (pre, post), some r, some (c, s) =>
+      match Mtv.Session.startClient r [] with
+      | .ok cl =>
+        if !cl.runsKeyExchange then "bad-op" else
+        let line := handleHs ("c06.hs" :: "x" :: rest)
+        let pre := pre.map fun st => st ++ ":" ++ preOutcome c s st
+        -- `Reconnect`, `Disconnect`, `CreateConnection` of a client that holds a key: no exchange, nil
+        let post := if line.startsWith "res=ok " then post.map (· ++ ":ok") else []
+        s!"pre={showSteps pre} {line} post={showSteps post}"
+      | _ => "bad-op"
+    | _, _, _ => "bad-op"
   | _ => "bad-op"
 
 /-- what both sides print when `NewMTProto` returned an error: nothing was sent, held or stored -/
@@ -92,6 +193,7 @@ def handle : List String → String
       let outs := (chunks 19 rest k).map handleStep
       if outs.contains "bad-op" then "bad-op" else " | ".intercalate outs
     | none => "bad-op"
+  | "c06.hist" :: ts => handleHist ("c06.hist" :: ts)
   | ts => handleHs ts
 
 end Driver.C06
